@@ -1,1 +1,309 @@
-// harnesses for may_queue/src/mpsc_list_v1.rs (child module, cfg(kani) only)
+// C19: harnesses over the real may_queue/src/mpsc_list_v1.rs (child module, cfg(kani) only).
+//
+// Real code: Queue::{new, push, pop, pop_if, peek, is_empty}, Entry::{remove, is_link, drop},
+// Node::new.  Stubbed: AtomicPtr operations of the list (schedule point + effect), Backoff::snooze
+// (= the producer between `head.swap` and `prev.next.store` must progress: pruned when it is
+// the pre-empted one).  CBMC's use-after-free / double-free checks are on.
+use super::*;
+use crate::verif_shim::{np, sa};
+
+static mut Q: *const Queue<u8> = std::ptr::null();
+static mut MAXD: usize = 1;
+// entries are numbered 1.. in push-start order; CONSUMED[i]: 0 = live, 1 = popped, 2 = removed
+static mut PUSHED: u8 = 0;
+static mut PUSH_DONE: u8 = 0;
+static mut PUSH_LEFT: usize = 0;
+static mut CONSUMED: [u8; 6] = [0; 6];
+static mut HANDLE: [Option<Entry<u8>>; 6] = [None, None, None, None, None, None];
+static mut LAST_POPPED: u8 = 0;
+static mut LIVE: u8 = 0; // entries pushed (completed) and not consumed, as the reference list sees it
+static mut CONS_LEFT: usize = 0;
+static mut IN_CONS: bool = false;
+static mut IN_PUSH: bool = false;
+
+fn do_push() {
+    unsafe {
+        PUSHED += 1;
+        let v = PUSHED;
+        let empty_at_start = LIVE == 0 && PUSH_DONE + 0 == consumed_count();
+        IN_PUSH = true;
+        let (h, is_head) = (*Q).push(v);
+        IN_PUSH = false;
+        PUSH_DONE += 1;
+        LIVE += 1;
+        // the head report identifies the pushes that found the list empty (sequential reading:
+        // only checked when no other operation overlapped this push)
+        if np::PREEMPTS == PREEMPTS_AT_PUSH_START {
+            assert!(is_head == empty_at_start, "C19: push reported is_head although the list was not empty (or vice versa)");
+        }
+        HANDLE[v as usize] = Some(h);
+    }
+}
+static mut PREEMPTS_AT_PUSH_START: usize = 0;
+fn consumed_count() -> u8 {
+    unsafe {
+        let mut n = 0;
+        let mut i = 1;
+        while i < 6 {
+            if CONSUMED[i] != 0 {
+                n += 1;
+            }
+            i += 1;
+        }
+        n
+    }
+}
+fn consume(v: u8, how: u8) {
+    unsafe {
+        assert!(v >= 1 && v <= PUSHED, "C19: an entry was returned that was never pushed");
+        assert!(CONSUMED[v as usize] == 0, "C19: an entry was consumed twice (pop and remove, or popped twice)");
+        CONSUMED[v as usize] = how;
+        LIVE -= 1;
+    }
+}
+fn do_pop() {
+    unsafe {
+        let done_at_start = PUSH_DONE;
+        let consumed_at_start = consumed_count();
+        IN_CONS = true;
+        let r = (*Q).pop();
+        IN_CONS = false;
+        match r {
+            None => assert!(done_at_start == consumed_at_start, "C19: pop returned None although a completed push was unconsumed"),
+            Some(v) => {
+                consume(v, 1);
+                assert!(v > LAST_POPPED, "C19: pop order is not push order");
+                // everything older is already consumed
+                let mut i = 1;
+                while i < 6 {
+                    if (i as u8) < v {
+                        assert!(CONSUMED[i] != 0, "C19: pop skipped an older live entry");
+                    }
+                    i += 1;
+                }
+                LAST_POPPED = v;
+            }
+        }
+    }
+}
+/// remove through the handle of entry `i` (the consumer thread does this in the timer code)
+fn do_remove(i: usize) {
+    unsafe {
+        if let Some(h) = HANDLE[i].take() {
+            let was = CONSUMED[i];
+            IN_CONS = true;
+            let r = h.remove();
+            IN_CONS = false;
+            match r {
+                Some(v) => {
+                    assert!(v as usize == i, "C19: remove returned another entry's value");
+                    assert!(was == 0, "C19: remove returned an entry that had already been consumed");
+                    consume(v, 2);
+                }
+                None => {} // already consumed, or the newest entry (left for pop): list unchanged
+            }
+        }
+    }
+}
+fn hook() {
+    unsafe {
+        if np::DEPTH < MAXD {
+            if PUSH_LEFT > 0 && !IN_PUSH && kani::any() {
+                PUSH_LEFT -= 1;
+                np::nested(do_push);
+            }
+            if np::DEPTH < MAXD && CONS_LEFT > 0 && !IN_CONS && kani::any() {
+                CONS_LEFT -= 1;
+                if kani::any() {
+                    np::nested(do_pop);
+                } else {
+                    let i: usize = kani::any();
+                    kani::assume(i >= 1 && i <= 3);
+                    np::nested(|| do_remove(i));
+                }
+            }
+        }
+    }
+}
+fn snooze_prune(_b: &Backoff) {
+    kani::assume(false);
+}
+/// quiescence: everything pushed is consumed exactly once by pop or remove
+fn drain_and_check() {
+    unsafe {
+        np::HOOK = None;
+        while PUSH_LEFT > 0 {
+            PUSH_LEFT -= 1;
+            do_push();
+        }
+        let mut i = 0;
+        while i < 5 {
+            do_pop();
+            i += 1;
+        }
+        assert!(consumed_count() == PUSHED, "C19: a pushed entry was never consumed (lost)");
+        assert!((*Q).is_empty());
+        // dropping the handles of consumed entries frees each node exactly once (CBMC checks)
+        let mut i = 1;
+        while i < 6 {
+            let h = HANDLE[i].take();
+            drop(h);
+            i += 1;
+        }
+    }
+}
+
+/// sequential histories: 6 solver-chosen operations from {push, pop, pop_if(pred), peek,
+/// remove(handle i), drop(handle i)} against the reference list
+#[kani::proof]
+#[kani::unwind(7)]
+fn c19_list_seq() {
+    let q: Queue<u8> = Queue::new();
+    unsafe { Q = &q };
+    let mut n = 0;
+    while n < 5 {
+        let op: u8 = kani::any();
+        unsafe {
+            match op {
+                0 => {
+                    if PUSHED < 3 {
+                        PREEMPTS_AT_PUSH_START = np::PREEMPTS;
+                        do_push();
+                    }
+                }
+                1 => do_pop(),
+                2 => {
+                    // pop_if with a predicate on the value
+                    let limit: u8 = kani::any();
+                    let oldest = oldest_live();
+                    let r = q.pop_if(&|v: &u8| *v <= limit);
+                    match r {
+                        Some(v) => {
+                            assert!(v == oldest && v <= limit, "C19: pop_if returned something else than the oldest live entry");
+                            consume(v, 1);
+                            LAST_POPPED = v;
+                        }
+                        None => assert!(oldest == 0 || oldest > limit, "C19: pop_if refused an entry its predicate accepts"),
+                    }
+                }
+                3 => {
+                    let oldest = oldest_live();
+                    match q.peek() {
+                        Some(v) => assert!(*v == oldest),
+                        None => assert!(oldest == 0),
+                    }
+                }
+                4 => {
+                    let i: usize = kani::any();
+                    kani::assume(i >= 1 && i <= 3);
+                    do_remove(i);
+                }
+                _ => {
+                    let i: usize = kani::any();
+                    kani::assume(i >= 1 && i <= 3);
+                    // is_link is true exactly for entries still linked (live, or the current sentinel)
+                    let h = HANDLE[i].take();
+                    drop(h);
+                }
+            }
+        }
+        n += 1;
+    }
+    unsafe {
+        kani::cover!(CONSUMED[2] == 2 && PUSHED >= 3, "a middle entry was removed");
+        kani::cover!(CONSUMED[1] == 2 && CONSUMED[2] == 1, "head removed, next popped");
+    }
+    drain_and_check();
+    std::mem::forget(q);
+}
+fn oldest_live() -> u8 {
+    unsafe {
+        let mut i = 1;
+        while i < 6 {
+            if (i as u8) <= PUSH_DONE && CONSUMED[i] == 0 {
+                return i as u8;
+            }
+            i += 1;
+        }
+        0
+    }
+}
+
+macro_rules! np_harness {
+    ($(#[$m:meta])* fn $name:ident() $body:block) => {
+        #[kani::proof]
+        $(#[$m])*
+        #[kani::stub(core::sync::atomic::Atomic::<*mut T>::load, sa::ptr_load)]
+        #[kani::stub(core::sync::atomic::Atomic::<*mut T>::store, sa::ptr_store)]
+        #[kani::stub(core::sync::atomic::Atomic::<*mut T>::swap, sa::ptr_swap)]
+        #[kani::stub(crossbeam_utils::Backoff::snooze, snooze_prune)]
+        fn $name() $body
+    };
+}
+
+/// consumer root: with three entries queued, the consumer does remove(i) then pop (solver-chosen
+/// i: head, middle, last); up to two pushes land at any atomic step (incl. the remove of the
+/// newest entry racing with the push that links behind it)
+fn consumer_root(depth: usize) {
+    let q: Queue<u8> = Queue::new();
+    unsafe {
+        Q = &q;
+        MAXD = depth;
+        PREEMPTS_AT_PUSH_START = usize::MAX;
+    }
+    let pre: u8 = kani::any();
+    kani::assume(pre >= 1 && pre <= 3);
+    let mut k = 0;
+    while k < pre {
+        do_push();
+        k += 1;
+    }
+    unsafe {
+        PUSH_LEFT = 2;
+        np::HOOK = Some(hook);
+    }
+    let i: usize = kani::any();
+    kani::assume(i >= 1 && i <= 3);
+    do_remove(i);
+    hook();
+    do_pop();
+    unsafe {
+        kani::cover!(np::PREEMPTS > 0 && CONSUMED[i] == 2, "a push landed inside a successful remove");
+        kani::cover!(np::PREEMPTS > 0 && CONSUMED[i] == 0 && i as u8 == pre, "remove of the newest entry raced with a push and left it for pop");
+    }
+    drain_and_check();
+    std::mem::forget(q);
+}
+np_harness! { #[kani::unwind(7)] fn c19_list_np_consumer_root_d1() { consumer_root(1) } }
+np_harness! { #[kani::unwind(7)] fn c19_list_np_consumer_root_d2() { consumer_root(2) } }
+
+/// producer root: a push (between head.swap and prev.next.store the entry is not yet linked);
+/// the consumer's whole pop / remove and a second push land at any of its atomic steps
+fn producer_root(depth: usize) {
+    let q: Queue<u8> = Queue::new();
+    unsafe {
+        Q = &q;
+        MAXD = depth;
+        PREEMPTS_AT_PUSH_START = usize::MAX;
+    }
+    let pre: u8 = kani::any();
+    kani::assume(pre <= 2);
+    let mut k = 0;
+    while k < pre {
+        do_push();
+        k += 1;
+    }
+    unsafe {
+        PUSH_LEFT = 1;
+        CONS_LEFT = 2;
+        np::HOOK = Some(hook);
+    }
+    do_push();
+    unsafe {
+        kani::cover!(np::PREEMPTS >= 2, "consumer operations landed inside the push");
+    }
+    drain_and_check();
+    std::mem::forget(q);
+}
+np_harness! { #[kani::unwind(7)] fn c19_list_np_producer_root_d1() { producer_root(1) } }
+np_harness! { #[kani::unwind(7)] fn c19_list_np_producer_root_d2() { producer_root(2) } }
